@@ -10,6 +10,7 @@
 (* part of the state space the trace walks through).                        *)
 (***************************************************************************)
 EXTENDS SoPlexAPI, Json, IOUtils
+BF == INSTANCE BasisFile
 
 Tr == ndJsonDeserialize(IOEnv.TRACE)
 
@@ -333,6 +334,51 @@ TVOptimizeQ ==
                                                           [] t.v = "UNB" -> r.status = ST_UNBOUNDED [] OTHER -> TRUE) \/ ~conclusive),
               Ev.o, s1, memo, KeepT(Ev.o))
 
+\* ---- C14: basis files.  The file written for the source object's basis must be exactly the records of
+\* BasisFile!WriteBas, and reading the file (into the same or a new object holding the same LP) must give BasisFile!ReadBas
+LptOf(lp) == [rows |-> [i \in 1..NR(lp) |-> [lf |-> BRIsFinite(lp.lhs[i]), uf |-> BRIsFinite(lp.rhs[i]), eq |-> lp.lhs[i] = lp.rhs[i], objNonPos |-> TRUE]],
+              cols |-> [j \in 1..NC(lp) |-> [lf |-> BRIsFinite(lp.lo[j]), uf |-> BRIsFinite(lp.up[j]), eq |-> lp.lo[j] = lp.up[j],
+                                              objNonPos |-> BRSign(BRMul(IF lp.sense = 1 THEN "1" ELSE "-1", lp.obj[j])) <= 0]]]
+IndexOf(names, n) == IF \E k \in 1..Len(names) : names[k] = n THEN (CHOOSE k \in 1..Len(names) : names[k] = n) - 1 ELSE -9
+\* file lines (token lists) -> records <<kind, col0, row0>>
+FileRecs(file, cn, rn) == [k \in 1..(Len(file) - 2) |-> LET ln == file[k + 1] IN
+                             <<ln[1], IndexOf(cn, ln[2]), IF Len(ln) >= 3 THEN IndexOf(rn, ln[3]) ELSE -1>>]
+TVBasisFile ==
+   /\ Ev.a = "basisFile" /\ Ev.o \in Live /\ Ev.src \in Live
+   /\ LET s == objs[Ev.o]  src == objs[Ev.src]  lpt == LptOf(src.rlp)
+          shapeOK == Len(Ev.file) >= 2 /\ Ev.file[1][1] = "NAME" /\ Ev.file[Len(Ev.file)] = <<"ENDATA">>
+                     /\ \A k \in 2..(Len(Ev.file) - 1) : Len(Ev.file[k]) \in {2, 3}
+          recs == FileRecs(Ev.file, Ev.cnames, Ev.rnames)
+          expect == BF!WriteBas(lpt, src.brow, src.bcol, Ev.cpx)
+          rb == BF!ReadBas(lpt, recs)
+          \* readBasisFile re-reads the status from the solver: any non-verdict code
+          s1 == [s EXCEPT !.hasBasis = TRUE, !.brow = rb.rows, !.bcol = rb.cols, !.status = Ev.st.status]
+      IN Step(IF ~src.hasBasis THEN {"BasisFile:NoBasis(harness)"} ELSE IF ~Ev.wret THEN {"WriteBasisFileFailed"} ELSE IF ~shapeOK THEN {"BasisFile:Shape"} ELSE
+              Fail("FileIsWriteBas", recs = expect)
+              \cup Fail("ReadBasisFileSucceeds", Ev.rret)
+              \cup (IF Ev.rret THEN ProjFails(s1, Ev.st) ELSE {})
+              \cup Fail("RestoresSavedBasis", rb.rows = src.brow /\ rb.cols = src.bcol)
+              \cup Fail("ReadBasisNoNewVerdict", Ev.st.status = s.status \/ Ev.st.status <= 0),
+              Ev.o, s1, memo, KeepT(Ev.o))
+
+\* state files: a new object that loads the three files written by writeStateReal holds the same LP (the MPS writer
+\* may turn a maximisation into the equivalent minimisation), the same basis statuses and the same parameters
+MPSNormalMax(p) == [p EXCEPT !.sense = -1, !.obj = [j \in 1..NC(p) |-> BRNeg(p.obj[j])]]
+TVStateFile ==
+   /\ Ev.a = "stateFile" /\ Ev.src \in Live /\ Ev.o \notin Live
+   /\ LET src == objs[Ev.src]  st == Ev.st
+          shape == StShapeOK(st)
+          got == IF shape THEN [LPOfSt(st) EXCEPT !.offset = st.offset] ELSE src.rlp
+          sameLP == got = src.rlp \/ (src.rlp.sense = 1 /\ [got EXCEPT !.offset = src.rlp.offset] = MPSNormalMax(src.rlp))
+          s1 == [src EXCEPT !.rlp = got, !.status = st.status, !.hasSol = FALSE, !.hasQ = st.hasQ, !.sync = st.sync, !.qlp = IF st.hasQ /\ StShapeOK(st.q) THEN LPOfSt(st.q) ELSE EmptyLP]
+      IN Step(IF ~shape THEN {"StShape"} ELSE
+              Fail("LoadSettingsFile", Ev.rset) \cup Fail("ReadLPFile", Ev.rlp) \cup Fail("ReadBasisFile", Ev.rbas)
+              \cup Fail("StateRestoresLP", sameLP)
+              \cup Fail("StateRestoresBasis", st.hasBasis /\ st.brow = src.brow /\ st.bcol = src.bcol)
+              \cup Fail("StateRestoresParameters", Ev.pdigNew = Ev.pdigSrc \/ (src.rlp.sense = 1 /\ got.sense = -1))
+              \cup Fail("NameSetsMatchDimensions", Ev.nRowNames = NR(got) /\ Ev.nColNames = NC(got)),
+              Ev.o, s1, memo, Forget(Ev.o))
+
 \* C09 on a bare SPxLPBase: scale (exponents chosen by the code are logged), then unscale
 BareLP(b) == [rows |-> b.rows, lhs |-> b.lhs, rhs |-> b.rhs, lo |-> b.lo, up |-> b.up, obj |-> b.maxobj, sense |-> 1, offset |-> "0"]
 TVScalerBare ==
@@ -351,7 +397,7 @@ TVScalerBare ==
 Init == objs = <<>> /\ memo = NoMemo /\ truth = <<>> /\ l = 1
 Next == /\ l <= Len(Tr)
         /\ \/ TVReset \/ TVCreate \/ TVMod \/ TVSetInt \/ TVSetBool \/ TVSetReal \/ TVSetSettingsFrom \/ TVSync \/ TVWitness
-           \/ TVOptimize \/ TVSetBasis \/ TVClearBasis \/ TVQueryBasis \/ TVCopy \/ TVDestroy \/ TVScalerBare \/ TVBinv \/ TVWitnessQ \/ TVOptimizeQ
+           \/ TVOptimize \/ TVSetBasis \/ TVClearBasis \/ TVQueryBasis \/ TVCopy \/ TVDestroy \/ TVScalerBare \/ TVBinv \/ TVWitnessQ \/ TVOptimizeQ \/ TVBasisFile \/ TVStateFile
 Spec == Init /\ [][Next]_vars
 
 \* acceptance: one state per consumed line plus the initial state
